@@ -83,6 +83,15 @@ def run(tier, seed):
         ob = oracle_rule(meth, n, a, b, x, w)
         if ob:
             bad.append(dict(method=meth, n=n, a=a, b=b, failed=ob, points=list(x), weights=list(w)))
+    # ---- shape sweep: every n up to 200 on several intervals: exactly n nodes inside [a,b], n weights summing to b-a (cheap, implementation only)
+    for meth in METHODS:
+        for (a, b) in [(0.0, 1.0), (-1.0, 1.0), (0.0, 2.0), (-2.0, 3.0), (0.1, 0.7), (-5.0, -4.0)]:
+            for n in range(2, 201):
+                if meth == "simpson" and n % 2 == 0: continue
+                x, w = quadrature(n, a, b, method=meth)
+                res.count("shape-sweep/" + meth)
+                if len(x) != n or len(w) != n or abs(float(np.sum(w)) - (b - a)) > 1e-11 * (b - a) * max(1.0, n / 20.0) or float(np.min(x)) < a - 1e-12 * max(1.0, abs(a)) or float(np.max(x)) > b + 1e-12 * max(1.0, abs(b)):
+                    bad.append(dict(method=meth, n=n, a=a, b=b, failed=["the rule has exactly n nodes inside [a,b] and n weights summing to b-a (n=%d on [%g,%g]: %d nodes in [%r,%r], %d weights summing to %r)" % (n, a, b, len(x), float(np.min(x)), float(np.max(x)), len(w), float(np.sum(w)))])); break
     # simpson must reject even n
     try:
         quadrature(4, 0.0, 1.0, method="simpson")
@@ -169,7 +178,7 @@ def run(tier, seed):
                            failing_inputs=[meta[i] for i in failing[:10]], no_failing_input_found=True))
     return finish(res, thm,
                   rule="all five rules x n in 2..12 plus random n<=64 (odd for Simpson) x intervals {[-1,1],[0,1], random a, random/integer/log-uniform lengths}; "
-                       "spawn stacks of depth 1..4, built twice from the same sizes list, through the EvenSamplingTrajectory quadrature= option, and after in-place edits of an earlier result; non-trivial = distinct (rule,n,a,b) or (rule,stack)",
+                       "every n up to 200 on six intervals for node count / containment / weight sum; spawn stacks of depth 1..4, built twice from the same sizes list, through the EvenSamplingTrajectory quadrature= option, and after in-place edits of an earlier result; non-trivial = distinct (rule,n,a,b) or (rule,stack)",
                   assumptions=["numpy leggauss is an oracle (its spec is checked numerically per n)",
                                "Clenshaw-Curtis: numpy ifft replaced in the model by a direct O(n^2) inverse DFT",
                                "tolerance 2^-43 * scale on nodes and weights"])
